@@ -11,7 +11,7 @@
    (st_string_runes).  The loop's fuel len(s)+1 is shown sufficient (every rune is at least one byte wide). *)
 From Coq Require Import ZArith NArith Bool Lia ZifyBool ZifyNat ZifyN List.
 From Soy Require Import Model.Bytes Model.Num Model.Utf8 Model.NumLit Generated.Tables Model.Quote
-  Proofs.SourceTieBase Proofs.SourceTieState Proofs.SourceTieQuote Proofs.SourceTieUnquote.
+  Proofs.SourceTieBase Proofs.SourceTieState Proofs.SourceTieUtf8 Proofs.SourceTieQuote Proofs.SourceTieUnquote.
 Import ListNotations.
 Open Scope N_scope.
 
@@ -28,21 +28,6 @@ Lemma escape_of_matches_source (r : N) :
 Proof.
   unfold escape_of, go_lookup_z, go_has_z. rewrite <- escapes_table_matches_source.
   destruct (assoc r escapes_table); reflexivity.
-Qed.
-
-(* the runes of a string, one decoding step at a time *)
-Lemma stq_runes_aux_skip (t : bstr) : forall k, runes_aux k t = runes_aux 0 (drop k t).
-Proof.
-  induction t as [|c t IH]; intros [|k]; try reflexivity.
-  cbn [runes_aux drop]. apply IH.
-Qed.
-
-Lemma stq_runes_step (s : bstr) : s <> [] ->
-  runes s = fst (decode_rune s) :: runes (drop (snd (decode_rune s)) s).
-Proof.
-  intros Hne. pose proof (st_decode_width s Hne) as Hw. destruct s as [|c t]; [congruence|].
-  unfold runes. cbn [runes_aux]. destruct (decode_rune (c :: t)) as [r w]. cbn [fst snd] in *.
-  destruct w as [|w]; [lia|]. cbn [pred drop]. f_equal. apply stq_runes_aux_skip.
 Qed.
 
 (* the loop: at byte index i (a rune boundary), q so far *)
